@@ -550,6 +550,10 @@ class Executor:
             return IntV(self.as_int(v))
         if isinstance(node.op, ast.Not):
             return BoolV(z3.Not(self.truth(v, st)))
+        if isinstance(node.op, ast.Invert) and self.c.get("invert_is_neg") and isinstance(v, IntV):
+            # `~x` on a Var modelled by its integer id (identity_calls): Var.__invert__ returns Var(-value), NOT Python's integer complement
+            self.dropped.add("Var.__invert__ modelled as negation of the id (cnf.py: `return Var(-self._val)`)")
+            return IntV(-v.t)
         raise OutOfSubset("unary op")
 
     def ev_BinOp(self, node, st, spec):
@@ -560,6 +564,8 @@ class Executor:
         if isinstance(a, ListV) and isinstance(op, ast.Mult) or isinstance(b, ListV) and isinstance(op, ast.Mult):
             lst, k = (a, b) if isinstance(a, ListV) else (b, a)
             return self.repeat(lst, self.as_int(k), st)
+        if isinstance(a, ObjV) and isinstance(b, ObjV) and isinstance(op, ast.Add) and "obj.__add__" in self.c.get("uses", {}):
+            return self.call_contract(self.c["uses"]["obj.__add__"], [node.left, node.right], st, "obj.__add__")
         x, y = self.as_int(a), self.as_int(b)
         if isinstance(op, ast.Add):
             return IntV(x + y)
@@ -696,6 +702,8 @@ class Executor:
         j = fresh("j", z3.IntSort())
         self.define(st, out.n == n)
         self.define(st, z3.ForAll([j], z3.Implies(z3.And(0 <= j, j < n), out.arr[j] == lst.arr[s + j]), patterns=[out.arr[j]]))
+        # the same fact keyed on the source (needed when a goal mentions only lst[i] and a callee's contract speaks about the slice)
+        self.define(st, z3.ForAll([j], z3.Implies(z3.And(s <= j, j < s + n), out.arr[j - s] == lst.arr[j]), patterns=[lst.arr[j]]))
         return out
 
     def ev_Subscript(self, node, st, spec):
@@ -1328,7 +1336,13 @@ class Executor:
             if f == "enumerate":
                 cnt, el = self.iter_desc(node.args[0], st)
                 return cnt, (lambda i, s: TupleV([IntV(i), el(i, s)]))
-        v = self.ev(node, st)
+        if isinstance(node, ast.GeneratorExp):
+            # a generator expression consumed once by the enclosing loop/zip: the same elements as the list comprehension (elements are side-effect free here)
+            lc = ast.ListComp(elt=node.elt, generators=node.generators)
+            ast.copy_location(lc, node)
+            v = self.listcomp(lc, st)
+        else:
+            v = self.ev(node, st)
         if isinstance(v, ListV):
             return v.n, (lambda i, s: elem_value(v, v.arr[i]))
         raise OutOfSubset(f"iteration over {ast.unparse(node)[:40]}")
@@ -1780,6 +1794,15 @@ def spec_axioms(formulas, depth=2, ranges=False, binary=False):
                                          z3.ForAll([i], z3.Implies(z3.And(0 <= i, i < n), isbit(b.arg(0), i)))),
                                   z3.And(z3.ForAll([j], z3.Implies(z3.And(0 <= j, j < n), _sel(a.arg(0), j) == _sel(b.arg(0), j))),
                                          z3.ForAll([j], z3.Implies(z3.And(0 <= j, j < n), _sel(b.arg(0), j) == _sel(a.arg(0), j))))))
+        # complement: summands that add up to pow2(i) position by position  =>  the two sums add up to pow2(n) - 1   (two's complement: flipped bits)
+        for a, b in itertools.combinations(apps, 2):
+            if a.arg(0).eq(b.arg(0)):
+                continue
+            i = fresh("ki", z3.IntSort())
+            n = a.arg(1)
+            out.append(z3.Implies(z3.And(n == b.arg(1), n >= 0,
+                                         z3.ForAll([i], z3.Implies(z3.And(0 <= i, i < n), _sel(a.arg(0), i) + _sel(b.arg(0), i) == Pow2(i)))),
+                                  a + b == Pow2(n) - 1))
         pows = list(seen_p.values())
         for a, b in itertools.permutations(pows, 2):
             out.append(z3.Implies(a.arg(0) <= b.arg(0), a <= b))
@@ -1833,6 +1856,12 @@ def check_sum_lemmas(ms=10_000):
     out.append(("lemma.pow2_mono.step", prove([d > 0, pdef(a_), pdef(a_ + d), pdef(a_ + d - 1), pdef(a_ + 1), mono(d - 1),
                                                # for a + d <= 0 both are 1; the step needs pow2 at a+d from a+d-1
                                                z3.Implies(a_ + d <= 0, z3.And(Pow2(a_ + d) == 1, Pow2(a_) == 1))], mono(d), ms)))
+    # complement: T1[i] + T2[i] == pow2(i) for i < n  ->  Sum(T1,n) + Sum(T2,n) == pow2(n) - 1   (induction on n)
+    compl = lambda m: z3.ForAll([i], z3.Implies(z3.And(0 <= i, i < m), T1[i] + T2[i] == Pow2(i)))
+    out.append(("lemma.binary_complement.base", prove([n == 0, defs(T1, n), defs(T2, n), pdef(n)], SumF(T1, n) + SumF(T2, n) == Pow2(n) - 1, ms)))
+    out.append(("lemma.binary_complement.step", prove([n > 0, defs(T1, n), defs(T2, n), pdef(n), pdef(n - 1), compl(n),
+                                                       z3.Implies(compl(n - 1), SumF(T1, n - 1) + SumF(T2, n - 1) == Pow2(n - 1) - 1)],
+                                                      SumF(T1, n) + SumF(T2, n) == Pow2(n) - 1, ms)))
     # binary bound: n >= 0 and all summands bits -> 0 <= Sum(T,n) < pow2(n)   (induction on n)
     isbit = lambda T, k: z3.Or(T[k] == 0, T[k] == Pow2(k))
     allbits = lambda T, m: z3.ForAll([i], z3.Implies(z3.And(0 <= i, i < m), isbit(T, i)))
